@@ -416,7 +416,9 @@ def r16_8(run, model):
            "a rejecting contains_key test on the function table precedes register_extern_function" if guarded else "register_extern_function overwrites whatever the table holds",
            witness="extern \"go\" \"strings\" ref_get(a: string) -> string replaces the builtin's type; the back end still lowers ref_get by name and panics")
     n += 1
-    run.floor("writes to the function and method tables examined", n, 3)
+    n += c17.unique_definition(run, model, "R16.8", "define_extern_builtin", ".funcs", "function table",
+                               "#[builtin] extern fn ref_get(x: int32) -> int32 in user code replaces the prelude entry; the back end lowers ref_get by name and panics")
+    run.floor("writes to the function and method tables examined", n, 4)
 
 
 def no_import_skipped(run, model, rule):
@@ -511,6 +513,30 @@ def r16_11(run, model):
         raise AnalysisIncomplete("read_source_files: package mismatch test not found")
 
 
+def r16_12(run, model):
+    run.rule("R16.12", "a type or trait name has one definition per package: collect_typedefs (or a function it calls) rejects a second enum / "
+                       "struct / trait of a name before the definitions are entered by name (insert-overwrite) - otherwise the last "
+                       "definition silently wins, an impl written between two definitions of a trait is checked against the first one, and "
+                       "the verdict depends on file order")
+    TOP = "crates/compiler/src/typer/toplevel.rs"
+    f = model.fn("collect_typedefs", TOP)
+    called = {S.callee_name(c) for c in S.calls(f.body)}
+    checkers = []
+    for g in [f] + [x for x in model.fns(TOP) if x.name in called and x.body is not None]:
+        dup_test = any(iff for iff in S.find(g.body, "If")
+                       if re.search(r"!\w+\.insert\(|\.contains(_key)?\(", S.norm_ws(run.facts.text(TOP, iff["cond"]["sp"])))
+                       and any(c["k"] == "MethodCall" and c["method"] == "push" for c in S.walk(iff["then"])))
+        if dup_test:
+            checkers.append(g)
+    for kind in ("EnumDef", "StructDef", "TraitDef"):
+        ok = any(re.search(r"Def::" + kind + r"\b", S.norm_ws(run.facts.text(TOP, g.body["sp"]))) for g in checkers if g.name != "collect_typedefs") or \
+             any(g.name == "collect_typedefs" for g in checkers)
+        run.ob("R16.12", f"collect_typedefs|a second {kind} of one name is rejected", ok, site(TOP, f.node["sp"]),
+               f"functions with a duplicate test: {[g.name for g in checkers] or 'none'}",
+               witness="trait Shape { fn area(Self) -> int32; } impl Shape for Square {..} trait Shape { fn area(Self) -> int32; fn name(Self) -> string; }: "
+                       "the impl is checked against the first definition, the Go calls the undeclared _goml_trait_impl_Shape_Square_name")
+
+
 def run(run, model):
     mir = Mir(run.facts)
     run.try_rule(r16_1, model, mir)
@@ -523,6 +549,7 @@ def run(run, model):
     run.try_rule(r16_9, model)
     run.try_rule(r16_10, model)
     run.try_rule(r16_11, model)
+    run.try_rule(r16_12, model)
     from rules import c04
     run.rule("R16.6", "a package missing from the link inputs is reported, not skipped (shared with C04 R04.8)")
     run.try_rule(c04.r04_8, model)
